@@ -360,7 +360,7 @@ LAW_FAMILIES = {
     'unsplit_q': dict(law='unsplit', dayset=1, splits=(1, 2), maxcells=4),
     'unsplit_t': dict(law='unsplit', dayset=8, splits=(1, 2, 4), maxcells=4),
     'extend_q': dict(law='extend', dayset=9, sell=(0, 1), splits=(1,), prefix=3),
-    'extend_t': dict(law='extend', dayset=10, splits=(1, 3), prefix=3, maxcells=6),
+    'extend_t': dict(law='extend', dayset=10, splits=(1, 3), prefix=3, maxcells=5),
     'project_q': dict(law='project', secs='SecSeqAB', dayset=7, sell=(0, 1)),
     'project_t': dict(law='project', secs='SecSeqAB', dayset=5, buy=(0, 1, 2), sell=(0, 1), maxcells=3),
 }
